@@ -6,7 +6,7 @@ base = set(json.load(open("/root/.vp/BASELINE.json"))["stable_pass"])
 passed = set()
 for tc in ET.parse(sys.argv[1]).getroot().iter("testcase"):
     if not any(ch.tag in ("failure", "error", "skipped") for ch in tc):
-        passed.add(f"{tc.get('classname')}::{tc.get('name')}".replace("/tmp/wt_full", "/repo"))
+        passed.add(f"{tc.get('classname')}::{tc.get('name')}".replace("/tmp/wt_full", "/repo").replace("/tmp/wtm", "/repo"))
 missing = sorted(base - passed)
 print(f"baseline stable_pass={len(base)} passed_now={len(passed)} missing={len(missing)}")
 for m in missing[:20]:
